@@ -99,7 +99,9 @@ impl RenderHtml for &str {
                 crate::hydration::failed_to_cast_text_node(node)
             });
 
-        if !FROM_SERVER {
+        // the server renders an empty string as a single space, so that the browser creates a
+        // text node for it: give that node the (empty) content a client-built node has
+        if !FROM_SERVER || self.is_empty() {
             Rndr::set_text(&node, self);
         }
         position.set(Position::NextChildAfterText);
